@@ -34,7 +34,7 @@ GATES = {
     "zero_variance_window": 1,
     "width_equals_window": 1,
     "right_volume_checked": 5,
-    "multiband": 2, "right_bands_in_another_order": 1, "zncc_with_nodata_pixels_holding_nan_samples": 2,
+    "multiband": 2, "right_bands_in_another_order": 1, "zncc_on_a_faint_texture_over_a_high_level": 1, "zncc_with_nodata_pixels_holding_nan_samples": 2,
     "roi_offset_coordinates": 2,
     "costs_compared": 100000,
 }
@@ -84,6 +84,8 @@ def cases(spec, ctx):
         yield {"work": "directed", "what": "zero-variance"}
         for k in range(3):
             yield {"work": "directed", "what": "nan-nodata", "method": "zncc", "sp": 1, "i": k}
+        for k in range(2):
+            yield {"work": "directed", "what": "faint", "method": "zncc", "sp": 1, "i": k}
         yield {"work": "directed", "what": "width-eq-window"}
         for m in ("sad", "ssd", "census", "zncc"):
             yield {"work": "directed", "what": "multiband", "method": m}
@@ -133,6 +135,8 @@ def build(case, ctx):
         method, tex, w = "zncc", "patches", 3
     elif what == "nan-nodata":
         subpix, lmk, rmk = case["sp"], "sparse", "sparse"
+    elif what == "faint":
+        subpix, tex, w = 1, "faint", 3
     elif what == "width-eq-window":
         w = 5
         cols = 5
@@ -143,6 +147,10 @@ def build(case, ctx):
         bands = 3
     elif what == "roi":
         col0, row0 = 17, 5
+    if tex == "faint" and subpix > 1:
+        # interpolated samples of a 3000-count level are not integers: their float32 squares lose the faint variance
+        # (catastrophic cancellation, |zncc| can even exceed 1) - a precision limit of the float32 pipeline, see DESIGN section 5
+        tex = "random"
     if method == "census" and w not in (3, 5):
         w = 3
     rows, cols = max(rows, w), max(cols, w, 2)
@@ -305,6 +313,7 @@ def run_case(case, ctx):
     ctx.gate("grid_with_non_integer_bounds", int(desc["interval"] == "grid-float"))
     ctx.gate("width_equals_window", int(cols == w))
     ctx.gate("multiband", int(desc["bands"] > 1))
+    ctx.gate("zncc_on_a_faint_texture_over_a_high_level", int(desc["texture"] == "faint" and desc["method"] == "zncc" and desc["subpix"] == 1))
     ctx.gate("zncc_with_nodata_pixels_holding_nan_samples", int(desc["nan_nodata"] and desc["method"] == "zncc"))
     ctx.gate("right_bands_in_another_order", int(bool(desc["right_bands"])))
     ctx.gate("roi_offset_coordinates", int(desc["col0"] > 0))
